@@ -131,6 +131,23 @@ impl FixtureDatabase {
         let mut imports = Vec::new();
 
         for stmt in stmts {
+            // Imports guarded by `try: ... except ImportError:` or `if ...:` at module level
+            // are imports all the same (in source order)
+            let blocks: Vec<&[Stmt]> = match stmt {
+                Stmt::Try(t) => std::iter::once(t.body.as_slice())
+                    .chain(t.handlers.iter().map(|h| {
+                        let rustpython_parser::ast::ExceptHandler::ExceptHandler(h) = h;
+                        h.body.as_slice()
+                    }))
+                    .chain([t.orelse.as_slice(), t.finalbody.as_slice()])
+                    .collect(),
+                Stmt::If(i) => vec![i.body.as_slice(), i.orelse.as_slice()],
+                _ => Vec::new(),
+            };
+            for block in blocks {
+                imports.extend(self.extract_fixture_imports(block, file_path, line_index));
+            }
+
             if let Stmt::ImportFrom(import_from) = stmt {
                 // Skip imports from standard library or well-known non-fixture modules
                 let mut module = import_from
